@@ -27,7 +27,7 @@ func TestC14Binary(t *testing.T) {
 	if _, err := os.Stat(bin); err != nil {
 		t.Skipf("prunner binary not built: %v", err)
 	}
-	col := ev.Get("C14", "binary", "the real prunner binary (go build ./cmd/prunner from the tree under test) listening on a TCP port, with the secret configured in one of the ways the program offers (--jwt-secret, PRUNNER_JWT_SECRET, jwt_secret in the config file, or none of these: the program then makes one up and writes it to the config file, from where the harness reads it; or --jwt-secret / PRUNNER_JWT_SECRET while the config file of an earlier run with another secret is still there - the documentation uses the file only 'if jwt-secret is not set', so a token signed with the left-over secret is an invalid credential), with profiling enabled or disabled in one of the ways the CLI offers (flag absent, --enable-profiling[=true|false], PRUNNER_ENABLE_PROFILING=true|1|false|0); requests over the socket to the documented API routes, the profiling paths (/debug/pprof/, /debug/pprof/cmdline, /debug/pprof/heap, /debug/pprof/goroutine, /debug/vars, /debug/) and a few undocumented paths, without a token, with garbage, with a token signed with another secret or with the empty key, with an expired token (header or cookie); oracle: API routes answer 401; with profiling disabled the profiling paths answer 404 and nothing but the API answers 2xx; with profiling enabled they answer 200 without a token; the body never contains the secret; a valid token is accepted (positive control) and afterwards exactly the jobs scheduled with it exist; non-trivial = every case; distinct by (profiling, credential, path)")
+	col := ev.Get("C14", "binary", "the real prunner binary (go build ./cmd/prunner from the tree under test) listening on a TCP port, with the secret configured in one of the ways the program offers (--jwt-secret, PRUNNER_JWT_SECRET, jwt_secret in the config file, or none of these: the program then makes one up and writes it to the config file, from where the harness reads it; or --jwt-secret / PRUNNER_JWT_SECRET while the config file of an earlier run with another secret is still there - the documentation uses the file only 'if jwt-secret is not set', so a token signed with the left-over secret is an invalid credential), with profiling enabled or disabled in one of the ways the CLI offers (flag absent, --enable-profiling[=true|false], PRUNNER_ENABLE_PROFILING=true|1|false|0); requests over one kept-alive connection (in a third of the probes preceded by a request with a valid token, by header or cookie, on the same connection) to the documented API routes, the profiling paths (/debug/pprof/, /debug/pprof/cmdline, /debug/pprof/heap, /debug/pprof/goroutine, /debug/vars, /debug/) and a few undocumented paths, without a token, with garbage, with a token signed with another secret or with the empty key, with an expired token (header or cookie); oracle: API routes answer 401; with profiling disabled the profiling paths answer 404 and nothing but the API answers 2xx; with profiling enabled they answer 200 without a token; the body never contains the secret; a valid token is accepted (positive control) and afterwards exactly the jobs scheduled with it exist; non-trivial = every case; distinct by (profiling, credential, path)")
 	other := jwtauth.New("HS256", []byte("another-secret-0123456789abcdef"), nil)
 	_, wrongToken, _ := other.Encode(map[string]interface{}{"sub": "bin"})
 	_, emptyKeyToken, _ := jwtauth.New("HS256", []byte(""), nil).Encode(map[string]interface{}{"sub": "bin"})
@@ -175,6 +175,13 @@ func TestC14Binary(t *testing.T) {
 			credName := rapid.SampledFrom([]string{"none", "none", "garbage", "wrong-secret", "expired", "empty-bearer", "signed-with-empty-key", "signed-with-left-over-file-secret"}).Draw(rt, "credential")
 			transport := rapid.SampledFrom([]string{"header", "cookie"}).Draw(rt, "transport")
 			kind := rapid.SampledFrom([]string{"api", "api", "debug", "debug", "other"}).Draw(rt, "pathKind")
+			// The client keeps its connection open: in a third of the probes a request with a valid token (which
+			// changes nothing) goes over the same connection just before - what it was granted is not inherited.
+			if via := rapid.SampledFrom([]string{"", "", "header", "cookie"}).Draw(rt, "validRequestBefore"); via != "" {
+				if code, _ := do("GET", "/pipelines/", token, via); code != 200 {
+					rt.Fatalf("positive control: GET /pipelines/ with a valid token via %s -> %d", via, code)
+				}
+			}
 			var code int
 			var body, what string
 			switch kind {
